@@ -133,3 +133,19 @@ PROPS["C09"] = dict(timeout=1800,
          "right CA right name, garbage, abort after ClientHello, stall} x position {first, between two good clients, while a good client is connected, all in a row}; oracle: faulty clients are disconnected and no command of "
          "theirs is executed (handler call counter), both listeners keep serving; non-trivial = every case",
     trusted_base=LIFE_TB, assumptions=["RequireAndVerifyClientCert verifies exactly chains to the configured CA that are currently valid (crypto/tls trusted)"])
+
+PROPS["C14"] = dict(race="always", shards=4, timeout=1800,
+    env={"GORACE": "log_path=$VERIF/run/racelog halt_on_error=0 exitcode=0", "VH_RACE_LOG": "$VERIF/run/racelog"},
+    rule="concurrent workloads against a real server (loopback TCP) built with -race: 2..32 clients x 30..90 rounds mixing one request of every command family "
+         "(strings, counters, keys, hashes, lists, sets, sorted sets, connection, unknown, ill-formed) with CONFIG SET/GET (incl. requirepass), AUTH, SELECT, connection churn, "
+         "registry enumeration (Conns/UUID) and Restart x3 / Stop from the application thread; 8 flag combinations; a report counts when one of its stacks has a framework frame; "
+         "observable: the set of unordered access-site pairs reported, compared with the model's prediction computed from the regenerated access table; "
+         "non-trivial = every workload; distinct = distinct case line",
+    trusted_base=[KERNEL, TIE,
+                  "sync.Mutex / sync.RWMutex give mutual exclusion and Unlock synchronises-before the next Lock (Go memory model) -- hypothesis wfL of the Lockset theory",
+                  "bin/extract (go/ast): an access is a selector <receiver>.<field> in a method of the owning type; the lock mode at a site is read off the Lock/RLock ... defer Unlock/RUnlock statements that precede it in the same function body",
+                  "the Go race detector (dynamic, reports only races that the schedule exercises) is the correspondence check, not the proof",
+                  "handler double and tracer are themselves synchronised (mutex-wrapped) so that reports concern the framework"],
+    assumptions=["the application configures the server (handlers, authenticators, TLS files, tracer) before Start and calls Start/Stop/Restart from one thread",
+                 "fields other than Config.params, ConnManager.m, Conn.isClosed and the listener fields are written only before the goroutine that reads them is started, or belong to one connection goroutine"],
+)
